@@ -1039,3 +1039,160 @@ theorem core_rescan {r : Reader} {pos : Nat} {bom bom_s : Bom} {d pre tail : Byt
     exact Out_skip hs this
 
 end Jomini.TextReader
+
+namespace Jomini.TextReader
+open Jomini Jomini.TextReader.Spec
+
+theorem tokenAt_adv_le {c : UInt8} {tl : Bytes} {j adv : Nat} {t : Token} (h : tokenAt c tl j = .tok adv t) :
+    adv ≤ j + 1 + tl.length := by
+  unfold tokenAt at h
+  split at h; · simp at h; omega
+  split at h; · simp at h; omega
+  split at h
+  · unfold quoteTok at h
+    cases hq : quoteScan tl 0 with
+    | more _ _ => rw [hq] at h; simp at h
+    | closed n => rw [hq] at h; simp at h; have := quoteEnd_bounds (quoteScan_closed hq); omega
+  have hunq : ∀ {c : UInt8} {tl : Bytes}, unqTok c tl j = .tok adv t → adv ≤ j + 1 + tl.length := by
+    intro c tl h
+    unfold unqTok at h
+    cases hf : findIdx isBoundary tl 0 with
+    | none => rw [hf] at h; simp at h
+    | some k => rw [hf] at h; simp at h; have := findIdx_some_bounds hf; omega
+  have hop2 : ∀ {p q : Op}, opTok2 p q tl j = .tok adv t → adv ≤ j + 1 + tl.length := by
+    intro p q h; unfold opTok2 at h
+    cases tl with
+    | nil => simp at h
+    | cons d r => simp only at h; split at h <;> simp at h <;> simp <;> omega
+  have hop1 : ∀ {o : Op}, opTok1 o tl j = .tok adv t → adv ≤ j + 1 + tl.length := by
+    intro o h; unfold opTok1 at h
+    cases tl with
+    | nil => simp at h
+    | cons d r => simp only at h; split at h <;> simp at h <;> simp <;> omega
+  split at h
+  · unfold atTok at h
+    cases tl with
+    | nil => simp at h
+    | cons d r =>
+      simp only at h
+      split at h
+      · cases hf : findIdx (· == 93) r 0 with
+        | none => rw [hf] at h; simp at h
+        | some k => rw [hf] at h; simp at h; have := findIdx_some_bounds hf; simp; omega
+      · exact hunq h
+  split at h; · exact hop2 h
+  split at h; · exact hop2 h
+  split at h; · exact hop1 h
+  split at h; · exact hop1 h
+  split at h; · exact hop2 h
+  exact hunq h
+
+/-- the scan stopped at a token byte `c` (window = `pre ++ c :: tl`, `pre` skipped) -/
+theorem core_token {r : Reader} {pos : Nat} {bom bom_s bomR : Bom} {d pre tl : Bytes} {c : UInt8} {f : Nat}
+    (IH : IHyp r.src.rest.length)
+    (hrel : Rel r pos bom d) (hwin : r.win = pre ++ c :: tl) (hs : Skips (pos == 0) pre 0 bom bom_s)
+    (h35 : (c == 35) = false) (hbomR : (c == 0xef) = false → bomR = bom_s)
+    (hscan : ∀ x, fbLoop (pos == 0) (pre ++ (c :: tl ++ x)) .top 0 bom = (bomR, tokenAt c (tl ++ x) pre.length))
+    (hfuel : 2 * r.src.rest.length + 4 ≤ f + 2) :
+    Out (run (f + 2) .fallback r) pos bom d := by
+  have hd : d = pre ++ (c :: tl ++ r.src.rest) := by rw [← hrel.data, hwin]; simp
+  have hscanW : fbLoop (pos == 0) r.win .top 0 bom = (bomR, tokenAt c tl pre.length) := by
+    have := hscan []; simp only [List.append_nil] at this; rw [hwin]; exact this
+  have hscanD : fbLoop (pos == 0) d .top 0 bom = (bomR, tokenAt c (tl ++ r.src.rest) pre.length) := by
+    rw [hd]; exact hscan _
+  have hdlen : d.length = pre.length + 1 + tl.length + r.src.rest.length := by rw [hd]; simp; omega
+  cases htok : tokenAt c tl pre.length with
+  | bomFill => exact absurd htok (tokenAt_not_bomFill _ _ _)
+  | tok adv t =>
+    have hstab := tokenAt_stable r.src.rest htok
+    have hle := tokenAt_adv_le htok
+    unfold Out specStep
+    rw [hscanD, hstab]
+    simp only [interp]
+    obtain ⟨r', hadv, hrel', _, _, _⟩ := (hrel.setBom bomR).advance adv (by simp [hwin]; omega)
+    refine ⟨r', ?_, hrel'⟩
+    rw [run_fallback_unfold, hrel.pos, hrel.bom, hscanW, htok]
+    simp only [hadv]
+  | refill st carry off =>
+    rcases tokenAt_refill htok with ⟨rfl, hc, hef⟩ | ⟨rfl, rfl, hq⟩ | ⟨rfl, hf, hc, ho, hunq⟩
+    · -- re-scan
+      have hb := hbomR hef; subst hb
+      subst hc
+      have : tl.length + 1 = (c :: tl).length := by simp
+      rw [this] at htok
+      refine core_rescan (off := off) IH hrel hwin hs ?_ hfuel
+      have := hscan []; simp only [List.append_nil] at this
+      rw [this, htok]
+    · -- quoted
+      have hb := hbomR (by decide); subst hb
+      obtain ⟨hnone, hc, _, hoc, hres⟩ := quoteScan_more hq
+      simp only [Nat.zero_add] at hc
+      subst hc
+      simp only [Nat.sub_zero] at hres
+      have hwin' : ({ r with bom := bomR } : Reader).win = (pre ++ [34]) ++ tl := by simp [hwin]
+      have hq := run_quote r.src.rest.length { r with bom := bomR } pos bomR d (pre ++ [34]) tl off (f + 1)
+        (Nat.le_refl _) (hrel.setBom bomR) hwin' hoc hnone hres (by simp; omega)
+      have hrun : run (f + 2) .fallback r = run (f + 1) (.refill .quote tl.length off) { r with bom := bomR } := by
+        rw [run_fallback_unfold, hrel.pos, hrel.bom, hscanW, htok]
+      rw [hrun]
+      unfold Out specStep
+      rw [hscanD, tokenAt_quote]
+      unfold quoteTok
+      simp only at hq
+      cases hqs : quoteScan (tl ++ r.src.rest) 0 with
+      | closed n =>
+        have e := quoteScan_closed hqs
+        rw [e] at hq
+        simp only [interp]
+        obtain ⟨r', h1, h2⟩ := hq
+        refine ⟨r', h1, ?_⟩
+        have e1 : pos + (pre.length + 1 + n + 1) = pos + (pre ++ [34]).length + (n + 1) := by simp; omega
+        have e2 : d.drop (pre.length + 1 + n + 1) = (tl ++ r.src.rest).drop (n + 1) := by
+          rw [hd, show pre.length + 1 + n + 1 = pre.length + ((n + 1) + 1) by omega, List.drop_append]
+          simp
+        rw [e1, e2]; exact h2
+      | more c' o' =>
+        obtain ⟨e, hc', _⟩ := quoteScan_more hqs
+        rw [e] at hq
+        simp only [interp]
+        obtain ⟨r', h1, h2⟩ := hq
+        refine ⟨r', h1, ?_⟩
+        rw [h2, hc', hdlen]; simp; omega
+    · -- unquoted
+      subst hc ho
+      have hq := run_unq r.src.rest.length { r with bom := bomR } pos bomR d pre c tl (f + 1)
+        (Nat.le_refl _) (hrel.setBom bomR) (by simp [hwin]) hf (by simp; omega)
+      have hrun : run (f + 2) .fallback r =
+          run (f + 1) (.refill .unquoted (tl.length + 1) (tl.length + 1)) { r with bom := bomR } := by
+        rw [run_fallback_unfold, hrel.pos, hrel.bom, hscanW, htok]
+      rw [hrun]
+      unfold Out specStep
+      rw [hscanD, hunq]
+      unfold unqTok
+      simp only at hq
+      cases hfs : findIdx isBoundary (tl ++ r.src.rest) 0 with
+      | some k =>
+        rw [hfs] at hq
+        simp only [interp]
+        obtain ⟨r', h1, h2⟩ := hq
+        refine ⟨r', h1, ?_⟩
+        have e1 : pos + (pre.length + 1 + k) = pos + pre.length + (1 + k) := by omega
+        have e2 : d.drop (pre.length + 1 + k) = (c :: (tl ++ r.src.rest)).drop (1 + k) := by
+          rw [hd, show pre.length + 1 + k = pre.length + (1 + k) by omega, List.drop_append]
+          simp
+        rw [e1, e2]; exact h2
+      | none =>
+        rw [hfs] at hq
+        simp only [interp]
+        obtain ⟨r', h1, h2⟩ := hq
+        have e0 : d.drop (d.length - ((tl ++ r.src.rest).length + 1)) = c :: (tl ++ r.src.rest) := by
+          rw [hdlen, hd]
+          have : pre.length + 1 + tl.length + r.src.rest.length - ((tl ++ r.src.rest).length + 1) = pre.length := by
+            simp; omega
+          rw [this]; simp
+        rw [e0]
+        refine ⟨r', h1, ?_⟩
+        have e1 : pos + d.length = pos + pre.length + (tl.length + 1 + r.src.rest.length) := by rw [hdlen]; omega
+        rw [e1, List.drop_length]; exact h2
+
+end Jomini.TextReader
